@@ -10,7 +10,7 @@
     formatter [F] writes for plan [p]; [planned o d p] = the planned commands as [Scanner.emit]
     reports them (the default delimiter stays in the text). *)
 From Coq Require Import List NArith ZArith Bool String.
-From Atlas Require Import Base.Bytes Lex.LexModel Lex.ClosedModel Lex.FmtModel Lex.QuoteModel Lex.QuoteProofs Lex.ClosedNLModel Lex.ClosedProofs Lex.FmtProofs Lex.FmtGooseProofs Lex.FmtHyp Lex.FmtImportModel Lex.FmtImportProofs Lex.ClosedBridgeModel Lex.ClosedBridgeProofs Lex.FmtBridgeForms Lex.FmtRefuted gen.Gen_ScanOpts.
+From Atlas Require Import Base.Bytes Lex.LexModel Lex.ClosedModel Lex.FmtModel Lex.QuoteModel Lex.QuoteProofs Lex.ClosedNLModel Lex.ClosedProofs Lex.FmtProofs Lex.FmtGooseProofs Lex.FmtHyp Lex.FmtImportModel Lex.FmtImportProofs Lex.ClosedBridgeModel Lex.ClosedBridgeProofs Lex.FmtBridgeForms Lex.ClosedBeginModel Lex.FmtBeginProofs Lex.FmtRefuted gen.Gen_ScanOpts.
 Import ListNotations.
 
 (** Full statement 3 (every identifier the builder quotes is a closed token) is FALSE of the
@@ -433,3 +433,29 @@ Proof.
   rewrite H3. vm_compute. reflexivity.
 Qed.
 Print Assumptions C07_comment_directive_refuted.
+
+(** BEGIN ... END blocks (CREATE TRIGGER / PROCEDURE bodies; not emitted by the OSS planners, but
+    accepted by migrate.Plan and by the MySQL and SQLite scanners, which match BEGIN blocks):
+    a plan whose commands are [scan_closed] OR consist of a closed head, the word BEGIN, closed
+    inner statements separated by ';' and the word END ([scan_closed_begin], ClosedBeginModel.v)
+    is read back by the atlas reader with the dialect's scanner — for every option set with
+    MatchBegin only (the MySQL and SQLite driver sets), default delimiter, any directives.
+    Single-statement core: ClosedBeginProofs.stmt_gap_closed_begin (nested scanner of skipBegin). *)
+Theorem C07_roundtrip_atlas_begin : forall o now p,
+  GoCommand o = false -> p_delim p = [] ->
+  Forall (fun x => directive_ok x = true) (p_directives p) ->
+  Forall (fun c => comment_ok (c_comment c) = true /\
+                   (scan_closed o delimiter (c_cmd c) = true \/
+                    exists b, c_cmd c = render_begin b /\ scan_closed_begin o b = true)) (p_changes p) ->
+  roundtrip FAtlas o now p = planned o delimiter p.
+Proof.
+  intros o now p Hgo Hd Hdirs Hall. rewrite roundtrip_eq, up_atlas, read_atlas, planned_eq, <- texts_of_eq.
+  exact (atlas_roundtrip_begin o p Hgo Hd Hdirs Hall).
+Qed.
+Print Assumptions C07_roundtrip_atlas_begin.
+Example C07_roundtrip_atlas_begin_nonvacuous :
+  scan_closed_begin opts_mysql ex_trigger = true /\ scan_closed_begin opts_sqlite ex_trigger = true
+  /\ scan_closed opts_mysql semi (render_begin ex_trigger) = false
+  /\ roundtrip FAtlas opts_mysql [] ex_trigger_plan = planned opts_mysql semi ex_trigger_plan
+  /\ roundtrip FGolangMigrate opts_mysql [] ex_trigger_plan <> planned opts_generic semi ex_trigger_plan.
+Proof. repeat split; vm_compute; try reflexivity; discriminate. Qed.
